@@ -4,14 +4,16 @@
    `run false` / `stop_loop false` = the legacy code, kept for the refuted statements. *)
 From Coq Require Import NArith ZArith List Bool Arith.
 Import ListNotations.
-Require Import UV.C04.Model UV.C04.Proofs UV.C04.ProofsLazy UV.C04.ProofsLive UV.C04.Compose UV.C04.ProofsDecode.
+Require Import UV.C04.Model UV.C04.Proofs UV.C04.ProofsLazy UV.C04.ProofsLive UV.C04.Compose UV.C04.ProofsDecode UV.C04.ProofsMulti UV.C04.ProofsDark.
 
 (* One thread stores the records `recs` (store by store, switching / re-using / growing / shrinking
    its ring of buffers; `start true`: beginning with its set-up by the first hook call, prepare_shmem_buffer);
    the recorder's main thread and writer run interleaved in any order (`sched`); at any point the message
    pipe may be closed (label LPC: mcount_trace_finish of a finish / signal trigger, REC_END / REC_START are
    lost from then on) and between two hook calls the thread may end its recording (LD / LDC: mtd_dtor of a
-   normal thread end / after a finish or signal trigger); the tracee is killed or the recording is ended at
+   normal thread end / after a finish or signal trigger), or the task may exec() a new image (LX: the old image's
+   buffer stays announced, the new image sets up a ring of its own and sends TASK_START; the recorder's
+   flush_old_shmem takes the first announced buffer of the tid); the tracee is killed or the recording is ended at
    an arbitrary point (= `sched` ends); then the recorder drains
    the pipe, runs flush_shmem_list and record_remaining_buffer.  The data file then consists of
    whole records: exactly those completely stored, in order - a prefix of what the thread was
@@ -29,6 +31,64 @@ Theorem C04_prefix_exact : forall setup cap recs sched,
   exists rest, Matches (done s) (file (finish s)) /\ recs = done s ++ rest.
 Proof. exact prefix_general_now. Qed.
 Print Assumptions C04_prefix_exact.
+
+(* "for every thread": any number of threads, each with its own ring of buffers and data file, one message
+   pipe, one shmem_list and one buf_write_list in the recorder, per-tid writers; any interleaving of all of
+   them; a kill / end of the recording at any point: every thread's data file consists of exactly the records
+   that thread stored completely, in order (proved by showing that one thread's view of any run of the whole
+   system is a run of the single-thread LTS and that the end-of-recording sequence commutes with that view) *)
+Theorem C04_prefix_every_thread : forall cap recss sched t,
+  t < length recss ->
+  let Mk := mrun true cap sched (minit recss) in
+  match_recs (mdone t Mk) (mfile t (mfinish Mk)) = true
+  /\ (exists rest, nth t recss [] = mdone t Mk ++ rest)
+  /\ ok_prefix (nth t recss []) (mfile t (mfinish Mk)) = true.
+Proof. exact multi_prefix. Qed.
+Print Assumptions C04_prefix_every_thread.
+
+Theorem C04_every_thread_prefix_of_its_execution : forall cap opss sched t,
+  t < length opss ->
+  wf_ops [] (nth t opss []) = true ->
+  let Mk := mrun true cap sched (minit (map (fun ops => concat (snd (ops_run [] ops))) opss)) in
+  exists k, match_recs (firstn k (eager [] (nth t opss []))) (mfile t (mfinish Mk)) = true.
+Proof. exact multi_killed_trace_is_prefix_of_execution. Qed.
+Print Assumptions C04_every_thread_prefix_of_its_execution.
+
+Theorem C04_crashing_thread_among_others_is_complete : forall cap recss sched t ops,
+  t < length recss ->
+  wf_ops [] ops = true ->
+  nth t recss [] = concat (snd (ops_run [] ops)) ++ segv_flush (fst (ops_run [] ops)) ->
+  let Mk := mrun true cap sched (minit recss) in
+  mdone t Mk = nth t recss [] ->
+  match_recs (eager [] ops) (mfile t (mfinish Mk)) = true.
+Proof. exact multi_crashed_thread_is_complete. Qed.
+Print Assumptions C04_crashing_thread_among_others_is_complete.
+
+(* the `PDark` abstraction of the LTS is faithful: in the machine where a thread whose messages no longer reach the
+   recorder (pipe closed by a finish / signal trigger) goes on storing into shared memory, the data file is the
+   same, for every schedule (FC = the pipe is closed; afterwards producer steps send nothing) ... *)
+Theorem C04_dark_abstraction_is_faithful : forall setup single cap recs sched,
+  file (finish (fst (frun single cap sched (start setup recs, false))))
+  = file (finish (run single cap (asched false sched) (start setup recs))).
+Proof. exact dark_is_faithful. Qed.
+Print Assumptions C04_dark_abstraction_is_faithful.
+
+(* ... so the faithful machine has the guarantee too *)
+Theorem C04_prefix_faithful_machine : forall setup cap recs sched,
+  ok_prefix recs (file (finish (fst (frun true cap sched (start setup recs, false))))) = true.
+Proof. exact prefix_faithful. Qed.
+Print Assumptions C04_prefix_faithful_machine.
+
+(* exec: the one data file of the task is what the old image stored completely, followed by what the new image
+   stored completely - whole records, in order, a prefix of what the task executed *)
+Theorem C04_exec_old_then_new : forall setup cap recs before after,
+  let s1 := run true cap before (start setup recs) in
+  let s := run true cap (before ++ [LX] ++ after) (start setup recs) in
+  exists new, done s = done s1 ++ new
+              /\ match_recs (done s1 ++ new) (file (finish s)) = true
+              /\ exists rest, recs = done s1 ++ new ++ rest.
+Proof. exact exec_old_then_new. Qed.
+Print Assumptions C04_exec_old_then_new.
 
 (* both variants at once: the file is the stored records plus `extra` (empty for the code as it is) *)
 Theorem C04_prefix_general : forall setup single cap recs sched,
